@@ -39,14 +39,14 @@ type C struct {
 
 // ShardOut is what a worker process hands back to the orchestrator.
 type ShardOut struct {
-	Cases      int               `json:"cases"`
-	Violations []Witness         `json:"violations"`
-	NTHashes   []uint64          `json:"nt_hashes"`
-	Obs        map[string]int64  `json:"obs"`
-	Max        map[string]int64  `json:"max"`
+	Cases      int                 `json:"cases"`
+	Violations []Witness           `json:"violations"`
+	NTHashes   []uint64            `json:"nt_hashes"`
+	Obs        map[string]int64    `json:"obs"`
+	Max        map[string]int64    `json:"max"`
 	Sets       map[string][]string `json:"sets"` // small string sets (distinct kinds seen)
-	Samples    []json.RawMessage `json:"samples"`
-	Crashed    []string          `json:"crashed,omitempty"`
+	Samples    []json.RawMessage   `json:"samples"`
+	Crashed    []string            `json:"crashed,omitempty"`
 	setIdx     map[string]map[string]bool
 }
 
@@ -124,6 +124,40 @@ func (c *C) Violation(clause string, ctx map[string]string, f string, a ...inter
 }
 
 func (c *C) Violated() bool { return c.nviol > 0 }
+
+// Fork returns a context for one goroutine of a concurrent case: private
+// counters, samples and witnesses (nothing shared), to be merged with Join
+// after the goroutine has been waited for.
+func (c *C) Fork() *C {
+	return &C{Prop: c.Prop, Tier: c.Tier, Seed: c.Seed, Idx: c.Idx, Verbose: c.Verbose, R: c.R.Fork(), desc: c.desc, shard: NewShardOut()}
+}
+
+// Join merges a forked context back (call after the goroutine finished).
+func (c *C) Join(k *C) {
+	for key, v := range k.shard.Obs {
+		c.shard.Obs[key] += v
+	}
+	for key, v := range k.shard.Max {
+		c.MaxObs(key, v)
+	}
+	for set, l := range k.shard.Sets {
+		for _, m := range l {
+			c.Seen(set, m)
+		}
+	}
+	c.shard.NTHashes = append(c.shard.NTHashes, k.shard.NTHashes...)
+	for _, w := range k.shard.Violations {
+		c.nviol++
+		if c.nviol <= 5 {
+			c.shard.Violations = append(c.shard.Violations, w)
+		}
+	}
+	for _, s := range k.shard.Samples {
+		if len(c.shard.Samples) < 3 {
+			c.shard.Samples = append(c.shard.Samples, s)
+		}
+	}
+}
 
 // Property is one registered check.
 type Property struct {
